@@ -81,7 +81,7 @@ func (c06) Gen(seed uint64, run int, tier string) *Plan {
 			}
 			p.Actions = append(p.Actions, Action{Kind: "conn", A: slot, C: k, D: r.Intn(4) * r.Intn(60)})
 		case x < 50:
-			p.Actions = append(p.Actions, Action{Kind: "bcast", C: r.Intn(4), B: r.Intn(2)})
+			p.Actions = append(p.Actions, Action{Kind: "bcast", C: r.Intn(5), B: r.Intn(2)})
 		case x < 68:
 			p.Actions = append(p.Actions, Action{Kind: "follow", A: slot, C: r.Intn(5), B: r.Intn(2)})
 		case x < 74:
@@ -90,7 +90,7 @@ func (c06) Gen(seed uint64, run int, tier string) *Plan {
 			if cfg.Service != nil {
 				p.Actions = append(p.Actions, Action{Kind: "sconn", A: r.Intn(2), C: r.Intn(7)})
 			} else {
-				p.Actions = append(p.Actions, Action{Kind: "bcast", C: r.Intn(4), B: r.Intn(2)})
+				p.Actions = append(p.Actions, Action{Kind: "bcast", C: r.Intn(5), B: r.Intn(2)})
 			}
 		case x < 94:
 			if cfg.Service != nil {
@@ -453,6 +453,14 @@ func (st *c06State) inject(a Action) {
 			d := w.Demons[a.B%len(w.Demons)]
 			st.taskN++
 			wit.Task(d.NameID(), fmt.Sprintf("%08x", 0x0c100000+st.taskN), world.CmdSleep, "sleep", map[string]any{"Arguments": "3;0"})
+		case 4:
+			// an authenticated operator's request that the teamserver answers with an error addressed
+			// "to the user named in the package head" - here a head without a user name (a client bug,
+			// or a script): a connection that has not logged in has no user name either
+			st.taskN++
+			wit.SendJSON(world.MakePkg(world.EvListener, world.ListenerAdd, []string{"", wit.Name}[a.B%2], map[string]any{"Name": fmt.Sprintf("px-%d", st.taskN), "Protocol": "Http", "HostBind": "10.0.0.5",
+				"Hosts": "10.0.0.5", "Headers": "", "Uris": "", "HostRotation": "round-robin", "PortBind": "9099", "PortConn": "", "HostHeader": "", "UserAgent": "", "Secure": "false", "Proxy Enabled": "true"}))
+			res.Probe("addressed-error-replies")
 		}
 		res.Probe("broadcasts")
 	case "sconn":
